@@ -49,6 +49,8 @@ def main():
     all_checks = "--all-checks" in args
     only = [a for a in args if not a.startswith("--")]
     rows = []
+    jobs = next((int(a.split("=")[1]) for a in args if a.startswith("--jobs=")), 1)
+    todo = []
     for base in ("seeded", "regressions"):
         bd = os.path.join(ROOT, base)
         if not os.path.isdir(bd):
@@ -57,7 +59,12 @@ def main():
             d = os.path.join(bd, name)
             if not os.path.exists(os.path.join(d, "meta.json")) or (only and name not in only):
                 continue
-            meta, res = run_one(d, all_checks)
+            todo.append((base, name, d))
+    from concurrent.futures import ThreadPoolExecutor
+    with ThreadPoolExecutor(max_workers=jobs) as ex:
+        results = list(ex.map(lambda t: run_one(t[2], all_checks), todo))
+    for (base, name, d), (meta, res) in zip(todo, results):
+        if True:
             caught = sorted(c for c, r in res.items() if isinstance(r, dict) and r["rc"] == 1)
             missed = sorted(c for c, r in res.items() if isinstance(r, dict) and r["rc"] == 0)
             incon = sorted(c for c, r in res.items() if isinstance(r, dict) and r["rc"] not in (0, 1))
